@@ -280,6 +280,11 @@ def sums_view(ot, sums):
 def all_algs_cases(c, rng, per_alg, with_exact=True):
     cs = C.random_part_cases(rng, C.HEURISTIC_PART + (["cg", "ckk", "snp", "rnp", "dp", "cbldm", "ilp"] if with_exact else []), per_alg, objs=C.OBJS5)
     cs = [e for e in cs if not (e["alg"] == "rnp" and e["p"]["k"] >= 6)]
+    if with_exact:      # complete greedy: the three classical objectives x random switch combinations (heuristic 3 and the bounds only act there)
+        for _ in range(max(24, 2 * per_alg)):
+            n = rng.randint(3, 8)
+            cs.append({"alg": "cg", "vals": gen.rand_vals(rng, n, rng.choice(["small", "mid", "dominant", "zeros", "dups"])),
+                       "p": dict(rng.choice(C.SWITCHES), k=rng.choice([2, 2, 3, 4]), obj=rng.choice(C.OBJS3), cut=None)})
     if with_exact:      # the recursive searches on inputs where KK's first answer is usually not perfect (nested levels, prior bins kept across iterations)
         for _ in range(max(10, per_alg)):
             a = rng.choice(["snp", "rnp"])
@@ -781,7 +786,10 @@ def C13(c):
         for a in itertools.combinations_with_replacement(range(0, c.n(3, 4)), k):
             for b in itertools.combinations_with_replacement(range(0, c.n(3, 4)), k):
                 pairs.append((list(a), list(b)))
-    c.exhaustive_scopes.append(f"all_combinations (sums manager): all pairs of sorted sum vectors with 1..{c.n(3,4)} bins, entries 0..{c.n(2,3)}")
+    for a in itertools.combinations_with_replacement(range(0, 3), 5):        # 5 bins: the smallest size at which equal SETS of sums with different multiplicities occur
+        for b in itertools.combinations_with_replacement(range(0, 3), 5):
+            pairs.append((list(a), list(b)))
+    c.exhaustive_scopes.append(f"all_combinations (sums manager): all pairs of sorted sum vectors with 1..{c.n(3,4)} bins, entries 0..{c.n(2,3)}, and with 5 bins, entries 0..2")
     for _ in range(c.n(100, 1000)):
         k = rng.randint(2, 5)
         pairs.append(([rng.randint(0, 9) for _ in range(k)], [rng.randint(0, 9) for _ in range(k)]))
@@ -1757,6 +1765,7 @@ def C18(c):
     base += C.random_pack_cases(rng, C.PACKERS, c.n(60, 600))
     base += C.random_cover_cases(rng, C.COVERS, c.n(200, 1500), Bs=(4, 5, 6, 7, 9, 12, 15, 20, 31, 100))
     ex = C.random_part_cases(rng, EXACT, c.n(40, 400), objs=C.OBJS5)
+    ex += C.random_part_cases(rng, ["cg"], c.n(120, 800), objs=C.OBJS3)
     ex = [e for e in ex if not (e["alg"] == "rnp" and e["p"]["k"] >= 6)]
     for e in ex:
         if e["alg"] == "cbldm":
@@ -1818,13 +1827,15 @@ def C18(c):
         c.stats["metamorphic"][kind] += 1
     # ---------- agreement of the exact algorithms beyond oracle size; never worse than a heuristic
     agree = []
-    for _ in range(c.n(10, 80)):
+    for _ in range(c.n(12, 80)):
         n = rng.randint(11, c.n(12, 16))
         k = rng.randint(2, c.n(3, 5))
         if n >= 14:
             k = min(k, 3)       # the exact algorithms take minutes per call beyond this
         vals = [rng.randint(1, 60) for _ in range(n)]
-        for o in rng.sample(C.OBJS3, c.n(1, 3)):
+        if rng.random() < 0.5:      # a total divisible by the number of bins (a perfect partition may exist: the bounds are tight there)
+            vals[-1] += (-sum(vals)) % k
+        for o in C.OBJS3:
             algs = ["cg", "dp", "ilp"] + (["ckk", "snp", "rnp"] if o == "diff" and k <= 4 and n <= 13 else [])
             if k >= 4 and n >= 14:
                 algs = [a for a in algs if a not in ("dp",)]
@@ -1946,6 +1957,8 @@ def C15(c):
     for hno in range(n_hist):
         L = rng.randint(20, c.n(120, 200))
         seq = [rng.randrange(len(calls)) for _ in range(L)]
+        if hno == 0:        # the first history runs EVERY call of the pool once, in random order: no pair of calls is left to chance
+            seq = list(range(len(calls))); rng.shuffle(seq)
         # repeat some calls back to back (repeatability) and bracket some by failing calls
         for _ in range(L // 10):
             pos = rng.randrange(len(seq)); seq.insert(pos, seq[pos])
